@@ -119,8 +119,8 @@ impl Property for C11 {
     }
     fn cases(&self, tier: Tier) -> u64 {
         match tier {
-            Tier::Quick => 300_000,
-            Tier::Thorough => 6_000_000,
+            Tier::Quick => 1_000_000,
+            Tier::Thorough => 10_000_000,
         }
     }
     fn generate(&self, s: &mut Src) -> Case {
